@@ -780,15 +780,27 @@ func (s *Scope) evalMethodCall(f ESel, argsE []Expr) Term {
 		unsupported("method call on value without Go type in contract")
 	}
 	pkgName := named.Obj().Pkg().Name()
+	// m$k selects the k-th result of a pure method
+	resIdx := 0
+	mname := f.Name
+	if k := strings.LastIndex(mname, "$"); k > 0 {
+		if n, err := strconv.Atoi(mname[k+1:]); err == nil {
+			resIdx = n
+			mname = mname[:k]
+		}
+	}
 	for _, star := range []string{"*", ""} {
-		key := pkgName + ".(" + star + named.Obj().Name() + ")." + f.Name
+		key := pkgName + ".(" + star + named.Obj().Name() + ")." + mname
 		if fi := x.P.Funcs[key]; fi != nil {
 			if fc := x.P.Contracts.Funcs[fi.Key]; fc != nil && fc.Flags["pure"] {
 				var as []Term
 				for _, a := range argsE {
 					as = append(as, s.Eval(a))
 				}
-				return x.pureUF(fi, recv, as)
+				return x.pureUFk(fi, recv, as, resIdx)
+			}
+			if resIdx != 0 {
+				unsupported("result selector on a method that is not flagged pure: %s", key)
 			}
 			tf := x.termFunOf(fi)
 			if tf == nil || !tf.ok {
